@@ -107,6 +107,18 @@ PROPS = {
                        "of the re-parsed tree; a root tuple without name and text writes nothing (noted in DESIGN.md).",
         "assumptions": ["xml-rs escapes markup-significant characters in characters() and attribute values"],
     },
+    "C02": {
+        "module": "c02",
+        "explanation": "R5 (exhaustive, 18 rows): BinaryExprType::precedence_level (constants read from MIR) equals the reference "
+                       "table in expressions.md, operator spellings mapped through the parser's own recognisers. R6: the two "
+                       "comparisons of the precedence-climbing loop (>= against the minimum, strict > against the current operator), "
+                       "their polarity, the recursive minimum and the start level. R7: no branch on operands. R8 (exhaustive): printer "
+                       "and parser operator tables are inverse. R9 (exhaustive): the five classifiers partition the 18 operators. "
+                       "With these the grouping function is fixed up to the correctness of the textbook climbing loop; parenthesised "
+                       "groups are Grouped operands (R7).",
+        "assumptions": ["the precedence-climbing algorithm itself (Dijkstra / Richards) is correct given the two comparisons"],
+        "technique": "static analysis: table agreement (MIR constants vs reference document), comparison-operator rules on MIR",
+    },
 }
 
 
